@@ -810,6 +810,8 @@ func twoSendersOneSlot() {
 	if err := x.S.SetOption(mangos.OptionSendDeadline, d); err != nil {
 		return
 	}
+	// (free choice) best effort on top: then neither Send may wait at all
+	be := kit.ChooseFree(2) == 1
 	x.P.Take(1)
 	kit.Quiesce()
 	if !blocked.Done() || blocked.Err != nil {
@@ -818,11 +820,26 @@ func twoSendersOneSlot() {
 	x.P.Take(1)
 	kit.Quiesce()
 	x.PrepSend()
+	if be {
+		if err := x.S.SetOption(mangos.OptionBestEffort, true); err != nil {
+			return
+		}
+	}
 	m1, m2 := x.Msg("sender-1"), x.Msg("sender-2")
 	t0 := kit.Now()
 	c1 := kit.Start("Send1", func() (interface{}, error) { return nil, x.S.SendMsg(m1) })
 	c2 := kit.Start("Send2", func() (interface{}, error) { return nil, x.S.SendMsg(m2) })
 	kit.Quiesce()
+	if be {
+		for i, c := range []*kit.Call{c1, c2} {
+			if !c.Done() || c.Err != nil || c.T1 != c.T0 {
+				kit.Failf("best-effort-blocked:"+k.Name, "%s: two best-effort Sends at once with one free queue slot: Send %d: done=%v %s after %v, want nil at the call instant", k.Name, i+1, c.Done(), kit.ErrName(c.Err), kit.Now()-t0)
+			}
+		}
+		kit.Observe("%s best-effort", k.Name)
+		kit.Must("Close", func() { _ = x.S.Close() })
+		return
+	}
 	kit.Sleep(d)
 	kit.Quiesce()
 	okc := 0
